@@ -85,6 +85,8 @@ fn er_contract<const L: usize, const QUERIES: bool, const REMOVE: bool>()
 #[kani::proof] #[kani::unwind(5)] fn k_entity_reactors_remove_l2() { er_contract::<2, false, true>(); }
 //# id=K.entity_reactors.remove.L3 props=C01,C06,C16 strength=bounded shape="per-entity list L=3, all contents" tier=thorough fns=EntityReactors::insert,EntityReactors::remove
 #[kani::proof] #[kani::unwind(6)] fn k_entity_reactors_remove_l3() { er_contract::<3, false, true>(); }
+//# id=K.entity_reactors.remove.L4 props=C01,C06,C16 strength=bounded shape="per-entity list L=4, all contents" tier=thorough fns=EntityReactors::insert,EntityReactors::remove
+#[kani::proof] #[kani::unwind(7)] fn k_entity_reactors_remove_l4() { er_contract::<4, false, true>(); }
 //# id=K.entity_reactors.queries.L1 props=C01,C16 strength=bounded shape="per-entity list L=1, all contents" tier=quick fns=EntityReactors::insert,EntityReactors::count,EntityReactors::iter_rtype,EntityReactors::iter_reactors
 #[kani::proof] #[kani::unwind(4)] fn k_entity_reactors_queries_l1() { er_contract::<1, true, false>(); }
 //# id=K.entity_reactors.queries.L2 props=C01,C16 strength=bounded shape="per-entity list L=2, all contents" tier=quick fns=EntityReactors::insert,EntityReactors::count,EntityReactors::iter_rtype,EntityReactors::iter_reactors
